@@ -186,7 +186,13 @@ impl GraphInline {
                 if !self.is_ref() && text.eq_ignore_ascii_case(url) {
                     format!("<{}>", url)
                 } else if self.is_ref() {
-                    format!("[{}]({}{})", text, url, options.refs_extension)
+                    // the url of an inline link is kept as written: do not append the
+                    // configured extension to a url that already carries it
+                    if !options.refs_extension.is_empty() && url.ends_with(&options.refs_extension) {
+                        format!("[{}]({})", text, url)
+                    } else {
+                        format!("[{}]({}{})", text, url, options.refs_extension)
+                    }
                 } else {
                     format!("[{}]({})", text, url)
                 }
